@@ -69,6 +69,7 @@ def obligations(run, visitors, oid_prefix="trace"):
     if "MarkAndSweepContext" in visitors:
         order_obligation(run, open(out).read(), wsdir, root, env, dump_s)
         alloc_roots_obligation(run, open(out).read(), wsdir, root, env)
+        recount_obligation(run, open(out).read(), wsdir, root, env)
     if "GlobalSlotRecycler" in visitors:
         opscan_obligation(run, open(out).read(), wsdir, root, env)
     for v in visitors:
@@ -150,10 +151,10 @@ def replay(pid, payload, path):
             print("VIOLATION property=%s replay=%s" % (pid, path))
             return 1
         return 0
-    if payload.get("kind") in ("order", "opscan", "allocroots"):
+    if payload.get("kind") in ("order", "opscan", "allocroots", "recount"):
         shutil.copy(os.path.join(ws.VERIF, "harness", "arity_replay.rs"), os.path.join(wsdir, "crates", "steel-core", "tests", "verif_arity_replay.rs"))
         p = subprocess.run(["cargo", "test", "--offline", "-p", "steel-core", "--no-default-features", "--features", ws.FEATURES,
-                            "--test", "verif_arity_replay", "--target-dir", os.path.join(root, "tn"), "--", {"opscan": "opscan_replay", "allocroots": "alloc_roots_replay"}.get(payload.get("kind"), "order_replay"), "--exact", "--nocapture"],
+                            "--test", "verif_arity_replay", "--target-dir", os.path.join(root, "tn"), "--", {"opscan": "opscan_replay", "allocroots": "alloc_roots_replay", "recount": "recount_replay"}.get(payload.get("kind"), "order_replay"), "--exact", "--nocapture"],
                            cwd=wsdir, env=dict(os.environ), capture_output=True, text=True)
         m = re.search(r"OBSERVED: (.*)", p.stdout + p.stderr)
         print("observed:", m.group(1) if m else "not reproduced")
@@ -215,6 +216,51 @@ def order_obligation(run, mir_text, wsdir, root, env, dump_s):
     path = os.path.join(d, "order_mark_bits.json")
     json.dump({"property": run.pid, "kind": "order", "what": what, "observed": m.group(1), "how": "./check %s --replay <this file>" % run.pid}, open(path, "w"), indent=1)
     key = "order:marking-without-reset"
+    if run.is_known(key):
+        run.known_hit(key, run.known[(run.pid, key)] + " -- " + m.group(1)[:200])
+        run.ob(oid, "known", nonvacuous=True, **common)
+    else:
+        run.violation(key, "%s; natively: %s" % (what, m.group(1)[:300]), path)
+        run.ob(oid, "fail", note=m.group(1)[:200], **common)
+
+
+def recount_obligation(run, mir_text, wsdir, root, env):
+    """E3u: counting free slots does not touch their contents (p_order.analyse_recount)"""
+    import p_order
+    oid = "recount:counting-does-not-write-slots"
+    t0 = time.time()
+    try:
+        r = p_order.analyse_recount(mir_text)
+    except Exception as ex:
+        run.ob(oid, "inconclusive", reason="extraction failed: %s" % str(ex)[-300:], engine="mir-smt")
+        return
+    common = dict(engine="mir-smt/z3", wall_s=round(time.time() - t0, 1), solver_s=round(r["dt"], 3), solver_checks=1)
+    run.samples.append({"engine": "mir-smt", "query": "exists an impl of FreeList::recount that takes write access to a slot or replaces / takes its value", "impls": r["impls"]})
+    run.functions.append("values::closed::FreeList::recount: callees (no write access to slots) (MIR)")
+    if r["res"] == "error" or not r["impls"] or any(not i["reads_mark"] for i in r["impls"]):
+        run.ob(oid, "inconclusive", reason="solver error or recount not recognised", **common)
+        return
+    if r["res"] == "unsat":
+        run.ob(oid, "pass", nonvacuous=True, note="recount reads the mark of every slot and writes none", **common)
+        return
+    what = "FreeList::recount takes write access to slots / replaces their values: after the recycler's partial marking it clears storage that is reachable but was not marked by that pass"
+    try:
+        shutil.copy(os.path.join(ws.VERIF, "harness", "arity_replay.rs"), os.path.join(wsdir, "crates", "steel-core", "tests", "verif_arity_replay.rs"))
+        p = subprocess.run(["cargo", "test", "--offline", "-p", "steel-core", "--no-default-features", "--features", ws.FEATURES,
+                            "--test", "verif_arity_replay", "--target-dir", os.path.join(root, "tn"), "--", "recount_replay", "--exact", "--nocapture"],
+                           cwd=wsdir, env=env, capture_output=True, text=True, timeout=2400)
+        m = re.search(r"OBSERVED: (.*)", p.stdout + p.stderr)
+    except Exception as ex:
+        run.ob(oid, "inconclusive", reason="replay failed: %s" % str(ex)[-300:], **common)
+        return
+    if not m:
+        run.ob(oid, "inconclusive", reason="solver: %s; not reproduced by the replay program" % what, **common)
+        return
+    d = os.path.join(ws.VERIF, "replays", run.pid)
+    os.makedirs(d, exist_ok=True)
+    path = os.path.join(d, "recount.json")
+    json.dump({"property": run.pid, "kind": "recount", "what": what, "observed": m.group(1), "how": "./check %s --replay <this file>" % run.pid}, open(path, "w"), indent=1)
+    key = "recount:writes-slots"
     if run.is_known(key):
         run.known_hit(key, run.known[(run.pid, key)] + " -- " + m.group(1)[:200])
         run.ob(oid, "known", nonvacuous=True, **common)
